@@ -143,3 +143,63 @@ func SharedNamespaceCases() []*Case {
 	add(file(1, ` autoescape="true"`, "", ""), file(2, ` autoescape="false"`, "", ""), caller)
 	return cases
 }
+
+// OneErrorCases (round 3): bundles that are INVALID in exactly one template
+// (one per data-reference rule), together with VALID templates in another
+// file that use the same names (the same param forwarded with data="all",
+// the same let / loop variable names, the same callee). The verdict and the
+// error text must be the same under every insertion order: the faulty file
+// is added both before and after the "contaminating" one (all permutations),
+// with and without a neutral third file.
+func OneErrorCases() []*Case {
+	type rule struct{ name, bad, cont string }
+	rules := []rule{
+		{"unused-param",
+			"/** @param id */\n{template .footer}\nfooter\n{/template}\n",
+			"/** @param id */\n{template .page}\n{call .leaf data=\"all\"/}\n{/template}\n/** @param id */\n{template .leaf}\n{$id}\n{/template}\n"},
+		{"unused-param-2",
+			"/**\n * @param id\n * @param name\n */\n{template .footer}\n{$name}\n{/template}\n",
+			"/**\n * @param id\n * @param name\n */\n{template .page}\n{call .leaf data=\"all\"/}{call .leaf data=\"$name\"/}{call .leaf}{param id: $id/}{param name: 1/}{/call}\n{/template}\n" +
+				"/**\n * @param? id\n * @param? name\n */\n{template .leaf}\n{$id}{$name}\n{/template}\n"},
+		{"undeclared-variable",
+			"/** */\n{template .footer}\n{$id}\n{/template}\n",
+			"/** @param id */\n{template .page}\n{$id}{let $id2: $id/}{$id2}{foreach $x in [1]}{$x}{/foreach}\n{/template}\n/** */\n{template .other}\n{let $id: 1/}{$id}{foreach $id in [1]}{$id}{/foreach}\n{/template}\n"},
+		{"undeclared-loop-variable",
+			"/** */\n{template .footer}\n{foreach $x in [1]}a{/foreach}{$x}\n{/template}\n",
+			"/** @param x */\n{template .page}\n{$x}{foreach $x in [1]}{$x}{/foreach}\n{/template}\n"},
+		{"param-not-declared-by-callee",
+			"/** */\n{template .footer}\n{call cont.leaf}{param zz: 1/}{/call}\n{/template}\n",
+			"/** @param? zz */\n{template .wide}\n{$zz}\n{/template}\n/** @param? id */\n{template .leaf}\n{$id}\n{/template}\n/** @param zz */\n{template .page}\n{call .wide}{param zz: $zz/}{/call}{call .wide data=\"all\"/}\n{/template}\n"},
+		{"missing-required-param",
+			"/** */\n{template .footer}\n{call cont.leaf/}\n{/template}\n",
+			"/** @param id */\n{template .leaf}\n{$id}\n{/template}\n/** @param id */\n{template .page}\n{call .leaf data=\"all\"/}{call .leaf}{param id: $id/}{/call}{call .leaf data=\"$id\"/}\n{/template}\n"},
+		{"unknown-callee",
+			"/** */\n{template .footer}\n{call cont.nope/}\n{/template}\n",
+			"/** */\n{template .nope2}\nx\n{/template}\n/** */\n{template .page}\n{call .nope2/}{call bad.nope/}\n{/template}\n"},
+		{"unused-let",
+			"/** */\n{template .footer}\n{let $v: 1/}x\n{/template}\n",
+			"/** */\n{template .page}\n{let $v: 1/}{$v}{let $w}{$v}{/let}{$w}\n{/template}\n"},
+		{"unused-let-shadowing-param",
+			"/** @param v */\n{template .footer}\n{$v}{if $v}{let $v: 2/}x{/if}\n{/template}\n",
+			"/** @param v */\n{template .page}\n{$v}{if $v}{let $v: 2/}{$v}{/if}{call .leaf data=\"all\"/}\n{/template}\n/** @param v */\n{template .leaf}\n{$v}\n{/template}\n"},
+		{"undefined-global",
+			"/** */\n{template .footer}\n{NO_SUCH.GLOBAL}\n{/template}\n",
+			"/** */\n{template .page}\n{SUCH.GLOBAL}{let $NO_SUCH: 1/}{$NO_SUCH}\n{/template}\n"},
+	}
+	neutral := core.File{Name: "neutral.soy", Text: "{namespace neutral}\n/** @param? id */\n{template .t}\n{$id}\n{/template}\n"}
+	var cases []*Case
+	for _, r := range rules {
+		bad := core.File{Name: "bad.soy", Text: "{namespace bad}\n" + r.bad}
+		if r.name == "unknown-callee" {
+			bad.Text += "/** */\n{template .nope}\ny\n{/template}\n"
+		}
+		cont := core.File{Name: "cont.soy", Text: "{namespace cont}\n" + r.cont}
+		g := map[string]interface{}{"SUCH.GLOBAL": "g"}
+		cases = append(cases,
+			&Case{ID: "one-error-" + r.name + "-2", Origin: "go", Files: []core.File{bad, cont}, Globals: g, Shape: Shape{NF: 2, NErr: 1}, NErr: 1, MustReject: true},
+			&Case{ID: "one-error-" + r.name + "-3", Origin: "go", Files: []core.File{cont, neutral, bad}, Globals: g, Shape: Shape{NF: 3, NErr: 1}, NErr: 1, MustReject: true},
+			// the valid part alone must be accepted: then the error above really is the only one
+			&Case{ID: "one-error-" + r.name + "-valid-part", Origin: "go", Files: []core.File{cont, neutral}, Globals: g, Shape: Shape{NF: 2}, MustAccept: r.name != "unknown-callee"})
+	}
+	return cases
+}
